@@ -655,7 +655,8 @@ impl Parser {
                 Ok(Expr::untyped(ExprEnum::Block(stmts), meta))
             }
             None => {
-                let meta = self.tokens.peek().unwrap().1;
+                // (at the end of the input the caller will report the missing `}`)
+                let meta = self.tokens.peek().map(|t| t.1).unwrap_or_default();
                 Ok(Expr::untyped(ExprEnum::TupleLiteral(vec![]), meta))
             }
         }
